@@ -1,5 +1,5 @@
 (* C12 - PaletteContainer: property theorems only.  Model and specification: Model/C12.v (on top of the
-   BitStorage model Model/C11.v); proofs: Proofs/C12.v, Proofs/C12_wire.v.
+   BitStorage model Model/C11.v); proofs: Proofs/C12.v, Proofs/C12_wire.v, Proofs/C12_spec.v.
    Inv c    = a container as New*PaletteContainer / Set / ReadFrom leave it: registry width g in 9..31
               (block states) or 4..31 (biomes); the data array is a well-formed BitStorage (C11) of the
               width the configuration table gives for the logical width, or has width 0; the palette
@@ -8,7 +8,7 @@
    pabs c   = the array of state ids the container denotes (data indices resolved through the palette).
    inreg cf v = 0 <= v < 2^(gbits cf). *)
 From Coq Require Import List NArith ZArith Bool Lia.
-From GoMC Require Import Base.Bytes Base.Dec Model.C05 Model.C11 Model.C12 Proofs.C11 Proofs.C12 Proofs.C12_wire.
+From GoMC Require Import Base.Bytes Base.Dec Model.C05 Model.C11 Model.C12 Proofs.C11 Proofs.C12 Proofs.C12_wire Proofs.C12_spec.
 Import ListNotations.
 Open Scope Z_scope.
 
@@ -68,6 +68,18 @@ Theorem C12_wire : forall c used rest fuel, Inv c -> ccfg used = ccfg c ->
     blen (cdata c') = blen (cdata c) /\ pabs c' = pabs c.
 Proof. exact wire_roundtrip. Qed.
 
+(* conformance: the image of ANY container satisfying the invariant, read by the independent
+   specification reader of the protocol's paletted container (bits-per-entry byte through the
+   protocol table 0 / 1-4 -> 4 / 5-8 / direct for block states and 0 / 1-3 / direct for biomes, VarInt
+   palette length and entries, VarInt long count, big-endian longs in the 1.16+ packing of C11,
+   direct ids with ceil(log2(registry)) bits), denotes exactly the array, and exactly the image is
+   consumed *)
+Theorem C12_conformant : forall c rest fuel, Inv c -> (lenN (data (cdata c)) < 2^31)%N ->
+  (length (pal_export (cpal c)) <= fuel)%nat ->
+  run_flat (spec_container (ckind (ccfg c)) (Z.to_N (gbits (ccfg c))) (Z.to_nat (blen (cdata c))) fuel)
+           (fst (pc_write c) ++ rest) = FOk (pabs c) rest.
+Proof. exact conformance. Qed.
+
 (* the reader is fragmentation-proof (feeds C09) *)
 Theorem C12_pal_read_robust : forall fuel p, robust (pal_read fuel p).
 Proof. exact pal_read_robust. Qed.
@@ -96,6 +108,17 @@ Example C12_ex_wire : exists c0, pc_new (mkCfg KBiomes 6) 64 3 = ROk c0 /\
     [2; 3; 3; 9; 63; 2; 0;0;0;0;0;0;0x24;0; 0;0;0;0;0;0;0;0]%N.
 Proof. eexists. split; [reflexivity|]. split; vm_compute; reflexivity. Qed.
 
+(* save data: the constructor agrees with the specification of saved sections on a concrete 5-entry
+   biome section (3-bit data, the case of fix 9a83ac5) and a direct block section *)
+Example C12_ex_with_data :
+  (exists c, pc_with_data (mkCfg KBiomes 6) 64 [0x0000000000004688; 0; 0; 0]%N [10; 20; 30; 40; 50] = ROk c /\
+             Some (map (fun j => match pc_get c j with ORet v => v | _ => -1 end) (positions 64)) =
+             spec_saved 3 64 [10; 20; 30; 40; 50] [0x0000000000004688; 0; 0; 0]%N) /\
+  (exists c, pc_with_data (mkCfg KStates 15) 8 [0x0003000100002000; 0x1]%N [] = ROk c /\
+             Some (map (fun j => match pc_get c j with ORet v => v | _ => -1 end) (positions 8)) =
+             spec_saved 15 8 [] [0x0003000100002000; 0x1]%N).
+Proof. split; eexists; (split; [reflexivity|vm_compute; reflexivity]). Qed.
+
 Print Assumptions C12_new.
 Print Assumptions C12_refines.
 Print Assumptions C12_get.
@@ -104,4 +127,5 @@ Print Assumptions C12_histories.
 Print Assumptions C12_copy_never_overflows.
 Print Assumptions C12_hash_is_linear.
 Print Assumptions C12_wire.
+Print Assumptions C12_conformant.
 Print Assumptions C12_pal_read_robust.
